@@ -434,7 +434,21 @@ struct Engine {
     void register_classes(
         int style, int left_out, const std::vector<int>& order,
         const std::vector<int>& late = {}) {
-        if (style == 0) {
+        if (style == 3) {
+            // redundant mix: every class registered several times, completely
+            // and incompletely, in the given order
+            for (int i : order) {
+                if (i < int(mp::mp_size<per_edge>::value) && i % 2 == 0) {
+                    s1.construct(i);
+                }
+            }
+            s0.construct();
+            for (int i : order) {
+                if (i < NCLS && i % 3 != 0) {
+                    s2.construct(i);
+                }
+            }
+        } else if (style == 0) {
             s0.construct();
         } else if (style == 1) {
             for (int i : order) {
